@@ -1,6 +1,8 @@
 package fen
 
 import (
+	"unicode"
+
 	"github.com/herohde/morlock/pkg/board"
 )
 
@@ -86,7 +88,15 @@ func Harness_C19_DecodeBoard5() { harnessDecodeBoard(5) }
 func harnessDecodeSplice(k int) {
 	base := []rune("r3k2r/8/8/8/8/8/8/R3K2R")
 	for j := 0; j < k; j++ {
-		i := int(verifSplit(uint64(nondetU8("pos")), 0, uint64(len(base)-1)))
+		var i int
+		if verifQuick() {
+			// quick: one representative of every kind of position (piece, run length inside a
+			// rank, rank separator, whole-rank run length, first rune)
+			quick := []int{0, 1, 5, 6, 19}
+			i = quick[int(verifSplit(uint64(nondetU8("pos")), 0, uint64(len(quick)-1)))]
+		} else {
+			i = int(verifSplit(uint64(nondetU8("pos")), 0, uint64(len(base)-1)))
+		}
 		base[i] = symRunes(1)[0]
 	}
 	verifReach("decode-splice")
@@ -115,3 +125,25 @@ func Harness_C19_DecodeFields() {
 	verifReach("decode-fields")
 	checkDecoded("r3k2r/8/8/8/8/8/8/R3K2R " + side + " " + castling + " " + ep + " " + np + " " + fm)
 }
+
+// board fields made of (unicode) digits and piece letters only: the near-valid family in
+// which run lengths and placements interact (3 or 4 runes, every digit/letter pattern)
+func harnessDecodeClasses(n int) {
+	pattern := verifSplit(uint64(nondetU8("pattern")), 0, uint64(1<<uint(n))-1)
+	rs := symRunes(n)
+	for i := 0; i < n; i++ {
+		_, _, isPiece := parsePiece(rs[i])
+		if pattern&(1<<uint(i)) != 0 {
+			verifAssume(isPiece)
+		} else {
+			verifAssume(unicode.IsDigit(rs[i]))
+		}
+	}
+	verifReach("decode-classes")
+	checkDecoded(string(rs) + " w - - 0 1")
+}
+
+func Harness_C19_DecodeClasses3() { harnessDecodeClasses(3) }
+func Harness_C19_DecodeClasses4() { harnessDecodeClasses(4) }
+
+func Harness_C19_DecodeBoard2() { harnessDecodeBoard(2) }
